@@ -7,7 +7,7 @@ EXTENDS Naturals, Sequences, FiniteSets, TLC, Json
 (*        out, custom_expected]                                            *)
 (* rules0: the class registry when the interpreter started; rules: after   *)
 (* the step; issues: the reported issues as a sequence of [x, k, rank]     *)
-(* (x a path), worlds as opaque snapshots.                                 *)
+(* (x a path; m the message text), worlds as opaque snapshots.                                 *)
 (***************************************************************************)
 Bag(s) == [e \in {s[i] : i \in DOMAIN s} |-> Cardinality({i \in DOMAIN s : s[i] = e})]
 Validations == {"default_validate", "doc_validate", "section_validate", "property_validate", "rerun_last", "report_last"}
@@ -17,5 +17,6 @@ ObservesOnly(o) == IsValidate(o) => o.out = "ok" /\ o.worldpost = o.worldpre
 \* prev: the issues the same kind of validation (same root; for rerun/report: the same instance) reported last time
 Repeatable(o) == (o.op \in Validations \cup {"other_process"} /\ o.prevworld = o.worldpre) => Bag(o.issues) = Bag(o.prev)
 CustomPrivate(o) == o.op \in Validations => \A i \in DOMAIN o.issues : o.issues[i].k # 701
-CustomApplied(o) == o.op = "run_custom" => Bag(o.issues) = Bag(o.custom_expected)
+\* custom_issues: the reported issues of kind 701 (the harness' own custom rule)
+CustomApplied(o) == o.op = "run_custom" => Bag(o.custom_issues) = Bag(o.custom_expected)
 ====
